@@ -28,12 +28,42 @@ def main(argv):
         prop, seed, lo, hi = argv[1], int(argv[2]), int(argv[3]), int(argv[4])
         print(json.dumps(_mod(prop).digests(seed, lo, hi)))
         return 0
+    if cmd == "mkreplay":
+        # build a replay file in a fresh process: exit 0 and file written iff the violation shows here
+        prop, src, dst = argv[1], argv[2], argv[3]
+        with open(src) as f:
+            job = json.load(f)
+        mod = _mod(prop)
+        if job.get("prefix"):
+            pf = job["prefix"]
+            last = mod.digests(pf["seed"], pf["lo"], pf["run"] + 1)[-1]
+            fps = last.split(":", 1)[1].split(",")
+            if job["fp"] not in fps:
+                return 3
+            core.write_json(dst, {"property": prop, "oracle": job["fp"], "verif_seed": pf["seed"], "run": pf["run"],
+                                  "violation": job.get("text", ""), "prefix": dict(pf, expect=last),
+                                  "note": "the violation depends on calls made earlier in the same process: the replay re-executes runs lo..run of the batch in order in one fresh process",
+                                  "schedule": [], "faults": []})
+            return 0
+        rp = mod.make_replay(job["rec"], job["fp"], job["seed"], job["run"])
+        if job["fp"] not in (rp.get("all_oracles") or []):
+            return 3
+        rp["oracle"] = job["fp"]
+        core.write_json(dst, rp)
+        return 0
     if cmd == "replay":
         path = argv[1]
         with open(path) as f:
-            prop = json.load(f)["property"]
+            head = json.load(f)
+        prop = head["property"]
         try:
-            ok, msg = _mod(prop).replay_file(path)
+            if head.get("prefix"):
+                pf = head["prefix"]
+                last = _mod(prop).digests(pf["seed"], pf["lo"], pf["run"] + 1)[-1]
+                ok = last == pf["expect"] and head["oracle"] in last.split(":", 1)[1].split(",")
+                msg = f"replayed runs {pf['lo']}..{pf['run']}: {last} expected {pf['expect']}"
+            else:
+                ok, msg = _mod(prop).replay_file(path)
         except core.HarnessError as e:
             print(f"HARNESS-ERROR property={prop} {e}")
             return core.EXIT_HARNESS
@@ -43,6 +73,10 @@ def main(argv):
             return core.EXIT_VIOLATION
         print("NOT-REPRODUCED")
         return core.EXIT_OK
+    if cmd in ("mutants", "seeded"):
+        from . import mutants
+
+        return (mutants.main_mutants if cmd == "mutants" else mutants.main_seeded)(argv[1:])
     if cmd in MODS:
         tier = os.environ.get("VERIF_TIER", "quick")
         if "--tier" in argv:
